@@ -106,6 +106,16 @@ func SolveRace(dir, name, script string, tmo time.Duration) Result {
 	return last
 }
 
+// SolveOne runs only the first solver (z3-new), synchronously.
+func SolveOne(dir, name, script string, tmo time.Duration) Result {
+	file := filepath.Join(dir, name+".smt2")
+	if err := os.WriteFile(file, []byte(script), 0o644); err != nil {
+		return Result{Status: "error", Output: err.Error()}
+	}
+	defer os.Remove(file)
+	return runOne(context.Background(), solvers[0], file, tmo)
+}
+
 func Solve(dir, name, script string, tmo time.Duration) Result {
 	file := filepath.Join(dir, name+".smt2")
 	if err := os.WriteFile(file, []byte(script), 0o644); err != nil {
